@@ -493,14 +493,94 @@ cycle_case!(c02_cycle_bool, 1, 0b1, 0b1);
 // (two real installations in one injector exhaust CBMC's array post-processing: 65 GB / >10 min,
 //  measured; the order of restoration for longer histories is therefore decided modularly below)
 
-/// stands for the core in the order obligation: returns a guard that restores zero bytes at the
-/// never-dereferenced address 4096*(k+1), so that the drop of guard k is seen by the OS model as an
-/// mprotect event on page k+1
-fn tagging_will_execute_guard(w: WhenCalled, _target: FuncPtrInternal) -> PatchGuard {
+/// stands for the core in the order obligations
+fn tagged_guard(src: usize) -> PatchGuard {
     unsafe {
+        let k = REC_CALLS;
         REC_CALLS += 1;
-        PatchGuard::new((4096 * REC_CALLS) as *mut u8, Vec::new(), 0, std::ptr::null_mut(), 0)
+        // the guard keeps the REAL target address (restoring zero bytes there) and owns a tagged
+        // trampoline mapping at the never-dereferenced address 0x10000*(k+1): the drop of guard k is
+        // seen by the OS model as munmap(0x10000*(k+1))
+        os::MMAP_MODE[k] = os::MMAP_INT;
+        os::MMAP_ADDR[k] = 0x10000 * (k + 1);
+        let p = libc::mmap_impl(std::ptr::null_mut(), 8, 7, 0x22, -1, 0);
+        os::N_EVENTS = 0;
+        PatchGuard::new(src as *mut u8, Vec::new(), 0, p as *mut u8, 8)
     }
+}
+
+fn tagging_will_execute_guard(w: WhenCalled, _target: FuncPtrInternal) -> PatchGuard {
+    tagged_guard(when_src(&w))
+}
+
+fn tagging_will_return_boolean_guard(w: WhenCalled, _value: bool) -> PatchGuard {
+    tagged_guard(when_src(&w))
+}
+
+/// C02.order over the installation FLAVOURS (also C14: fake / re-fake of the same async function):
+/// every installation's guard is kept (nothing is restored or released before the injector goes away),
+/// and the drop glue then restores newest-first.
+fn flavour_epilogue_order(inj: InjectorPP, k: usize) {
+    assert!(inj.guards.len() == k, "OBL:C02.guard.kept.flavours: every installation flavour keeps its guard until the injector is dropped (re-faking the same function included)");
+    assert!(unsafe { os::N_EVENTS } == 0, "OBL:C02.no-early-restore: nothing is restored or released while the injector lives, so the most recent installation stays in effect");
+    drop(inj);
+    unsafe {
+        assert!(os::N_MUNMAP == k && !os::BAD_MUNMAP && os::live_count() == 0, "OBL:C02.order.once.flavours: every guard is dropped exactly once");
+        let j: usize = kani::any();
+        kani::assume(j < k);
+        assert!(os::UNMAP_ORDER[j] == 0x10000 * (k - j), "OBL:C02.order.reverse.flavours: guards of all flavours are dropped in reverse order of installation");
+    }
+    kani::cover!(true, "COVER:end");
+}
+
+/// fake / re-fake / re-fake of the SAME async function (checked and unchecked forms) in one injector
+#[kani::proof]
+#[kani::unwind(10)]
+#[kani::stub(crate::injector_core::internal::WhenCalled::will_execute_guard, tagging_will_execute_guard)]
+#[kani::stub(crate::injector_core::linuxapi::__clear_cache, os::flush)]
+#[kani::stub(crate::verif_rt::event_hook, mon_event)]
+fn c02_order_async_refake() {
+    let mut inj = InjectorPP::new();
+    let t = 0x1000usize;
+    let b1 = WhenCalledBuilderAsync { lib: &mut inj, when: WhenCalled::new(fp_int(t)), expected_signature: "P" };
+    b1.will_return_async(int_fp(0x2000, "P"));
+    let b2 = WhenCalledBuilderAsync { lib: &mut inj, when: WhenCalled::new(fp_int(t)), expected_signature: "" };
+    unsafe { b2.will_return_async_unchecked(int_fp(0x3000, "")) };
+    let b3 = WhenCalledBuilderAsync { lib: &mut inj, when: WhenCalled::new(fp_int(t)), expected_signature: "P" };
+    b3.will_return_async(int_fp(0x4000, "P"));
+    flavour_epilogue_order(inj, 3);
+}
+
+/// the minimal re-fake: the same async function faked twice
+#[kani::proof]
+#[kani::unwind(10)]
+#[kani::stub(crate::injector_core::internal::WhenCalled::will_execute_guard, tagging_will_execute_guard)]
+#[kani::stub(crate::injector_core::linuxapi::__clear_cache, os::flush)]
+fn c02_order_async_refake2() {
+    let mut inj = InjectorPP::new();
+    let t = 0x1000usize;
+    let b1 = WhenCalledBuilderAsync { lib: &mut inj, when: WhenCalled::new(fp_int(t)), expected_signature: "" };
+    unsafe { b1.will_return_async_unchecked(int_fp(0x2000, "")) };
+    let b2 = WhenCalledBuilderAsync { lib: &mut inj, when: WhenCalled::new(fp_int(t)), expected_signature: "" };
+    unsafe { b2.will_return_async_unchecked(int_fp(0x3000, "")) };
+    flavour_epilogue_order(inj, 2);
+}
+
+/// the same target through each of the four synchronous installation calls in one injector
+#[kani::proof]
+#[kani::unwind(16)]
+#[kani::stub(crate::injector_core::internal::WhenCalled::will_execute_guard, tagging_will_execute_guard)]
+#[kani::stub(crate::injector_core::internal::WhenCalled::will_return_boolean_guard, tagging_will_return_boolean_guard)]
+#[kani::stub(crate::injector_core::linuxapi::__clear_cache, os::flush)]
+#[kani::stub(crate::verif_rt::event_hook, mon_event)]
+fn c02_order_sync_flavours() {
+    let mut inj = InjectorPP::new();
+    let t = 0x1000usize;
+    inj.when_called(int_fp(t, "f")).will_execute_raw(int_fp(0x2000, "f"));
+    unsafe { inj.when_called_unchecked(int_fp(t, "")).will_execute_raw_unchecked(int_fp(0x2000, "")) };
+    inj.when_called(int_fp(t, "f")).will_execute((int_fp(0x2000, "f"), CallCountVerifier::Dummy));
+    inj.when_called(int_fp(t, "fn()-> bool")).will_return_boolean(true);
+    flavour_epilogue_order(inj, 4);
 }
 
 /// C02.order (modular): for the history length K the real drop glue of `InjectorPP` drops the guards
@@ -520,11 +600,10 @@ fn order_body(k: usize) {
     assert!(inj.guards.len() == k && unsafe { os::N_EVENTS } == 0, "OBL:C02.guard.kept: one guard per installation is kept, none dropped early");
     drop(inj);
     unsafe {
-        // restore events, in order: mprotect(page k), flush, flush, mprotect(page k-1), ...
-        assert!(os::N_MPROTECT == k, "OBL:C02.order.once: every guard is dropped exactly once");
+        assert!(os::N_MUNMAP == k && !os::BAD_MUNMAP && os::live_count() == 0, "OBL:C02.order.once: every guard is dropped exactly once");
         let j: usize = kani::any();
         kani::assume(j < k);
-        assert!(os::PROT_START[j] == 4096 * (k - j), "OBL:C02.order.reverse: guards are dropped in reverse order of installation");
+        assert!(os::UNMAP_ORDER[j] == 0x10000 * (k - j), "OBL:C02.order.reverse: guards are dropped in reverse order of installation");
         assert!(!lock_held(), "OBL:C02.order.then-unlock: the process-wide guard is released after the restoration");
     }
     kani::cover!(true, "COVER:end");
